@@ -160,8 +160,8 @@ fn main() {
             ("gm", _) => 1 + r.below(3) as usize,
             ("slave", _) => 1,
             (_, 7) => 2 + r.below(30) as usize,
-            // a big boundary clock: the observation message exceeds the exporter's 16 KiB read
-            ("bc", 6) if r.chance(1, 6) => 52 + r.below(20) as usize,
+            // a big boundary clock: the observation message is larger than 16 KiB
+            ("bc", 6) if r.chance(1, 3) => 52 + r.below(20) as usize,
             _ => 2 + r.below(4) as usize,
         };
         // ---------------- program
@@ -172,7 +172,7 @@ fn main() {
         let program = ProgramData { version: ver.to_owned(), build_commit: commit.to_owned(), build_commit_date: date.to_owned(), uptime_seconds: up };
         let up_json = serde_json::to_string(&up).unwrap();
         // what the exporter will publish: the number after serde_json's float parser (the only
-        // f64 of the state; serde_json without `float_roundtrip` may be off by one ulp)
+        // f64 of the state; exact since the workspace enables `float_roundtrip`)
         let up_seen: f64 = serde_json::from_str(&up_json).unwrap();
         let up_disp = format!("{}", up_seen);
         // ---------------- default_ds
